@@ -442,6 +442,7 @@ def to_docstring(
         )
         name, _param = param
         del param
+        _param = dict(_param)  # do not modify the IR of the caller
         if "doc" in _param:
             doc, default = extract_default(
                 _param["doc"], emit_default_doc=emit_default_doc
